@@ -107,6 +107,24 @@ def _harness(tier, seed):
                     viol.append(("packing/log-text", {"text": t}, "packing parsed from its text differs"))
             except Exception as ex:
                 viol.append(("packing/raises", {"rows": np.array(y).tolist()}, repr(ex)))
+            # the same packing with its rows in another order (bins then first appear in any order): still a feasible packing
+            if it % 3 == 0 and y.shape[0] > 1:
+                yp = space.create()
+                order_ = list(range(y.shape[0]))
+                rng.shuffle(order_)
+                if it % 6 == 0:
+                    order_ = order_[::-1] if order_ != sorted(order_) else list(reversed(order_))
+                yp[:, :] = y[order_, :]
+                yp.n_bins = y.n_bins
+                try:
+                    space.validate(yp)
+                    tp = space.to_str(yp)
+                    zp = space.from_str(tp)
+                    evals += 1
+                    if not (np.array_equal(zp, yp) and zp.n_bins == yp.n_bins):
+                        viol.append(("packing/log-text", {"text": tp}, "row-permuted packing parsed from its text differs"))
+                except Exception as ex:
+                    viol.append(("packing/raises", {"rows": np.array(yp).tolist()}, repr(ex)))
         # ---- game plans
         def _gen_ttp(n):
             m = np.array([[0 if a == b else 1 + abs(a - b) for b in range(n)] for a in range(n)], dtype=np.int64)
